@@ -288,6 +288,7 @@ func checkC07(c *Ctx, w *World) {
 		c.check(closed, "C07.once", "refresh: flag set ⇒ registered ∨ reset", p.ipos(st), "every path that set the flag registers the replacement under its own key in refreshingScRefs or resets the flag before returning", "a path sets the refreshing flag and returns without registering a replacement or resetting it: no later refresh can ever start for this channel")
 	}
 	pl.whoMayWrite("C07.once", "subConnRef.refreshing", map[string][]string{fname(refresh): {"store"}, fname(pl.uscs): {"store"}})
+	pl.flagClearedOnlyAtSwap("C07.once-clear")
 	pl.whoMayWrite("C07.once", "gcpBalancer.refreshingScRefs", map[string][]string{fname(refresh): {"map-insert"}, fname(pl.uscs): {"map-delete"}})
 
 	// ---- C07.graceful
@@ -454,4 +455,58 @@ func checkSwap(pl *pool) {
 		}
 	}
 	c.check(!touch, "C07.swap", "swap: position kept", p.pos(pl.uscs.Pos()), "UpdateSubConnState never writes scRefList: the channel keeps its round-robin position", "connection state handling rewrites the round-robin list")
+}
+
+// flagClearedOnlyAtSwap: the per-channel "refresh in progress" flag (which blocks further replacements) is
+// cleared only where no replacement is outstanding: in refresh() when the creation failed (nothing was
+// registered on that path), or in the swap when the replacement takes over. Clearing it anywhere else
+// lets a second replacement be created while the first is still registered.
+func (pl *pool) flagClearedOnlyAtSwap(rule string) {
+	c, p := pl.c, pl.p
+	refresh := pl.f("(*gcpBalancer).refresh")
+	if refresh == nil || pl.uscs == nil {
+		return
+	}
+	cs := pl.uscsSpace()
+	if cs == nil {
+		return
+	}
+	swap := cs.And(cs.Atom("found"), cs.Atom("sReady"))
+	n := 0
+	for _, a := range pl.ai.ByField["subConnRef.refreshing"] {
+		st, ok := a.Instr.(*ssa.Store)
+		if !ok || freshAt(a.Base, a.Instr) {
+			continue
+		}
+		cst, isC := st.Val.(*ssa.Const)
+		if !isC || cst.Value == nil || cst.Value.String() != "false" {
+			continue
+		}
+		n++
+		construct := fmt.Sprintf("refreshing←false in %s#%d", fname(a.Fn), n)
+		switch a.Fn {
+		case pl.uscs:
+			imp, wit := cs.Implies(cs.ForgetLoopVars(cs.Reach(st)), swap)
+			// and the replacement is unregistered on that path
+			unreg := false
+			for _, b := range pl.ai.ByFn[pl.uscs] {
+				if b.Field == "gcpBalancer.refreshingScRefs" && b.What == "map-delete" && (dominatesInstr(b.Instr, st) || everyPathHits(st, map[ssa.Instruction]bool{b.Instr: true})) {
+					unreg = true
+				}
+			}
+			c.check(imp && unreg, rule, construct, p.ipos(st), "cleared only in the swap, where the replacement is unregistered and takes over", "the flag is cleared while a replacement may still be registered (a second replacement can be created for the same channel): "+wit)
+		case refresh:
+			// no registration on any path through this store
+			reg := false
+			for _, b := range pl.ai.ByFn[refresh] {
+				if b.Field == "gcpBalancer.refreshingScRefs" && b.What == "map-insert" && (mayPrecede(b.Instr, st) || mayPrecede(st, b.Instr)) {
+					reg = true
+				}
+			}
+			c.check(!reg, rule, construct, p.ipos(st), "cleared only on the path where no replacement was registered (creation failed)", "the flag is cleared on a path that registers a replacement")
+		default:
+			c.fail(rule, construct, p.ipos(st), "the refresh-in-progress flag is cleared outside refresh() and the swap")
+		}
+	}
+	c.floor(rule, n, 2)
 }
